@@ -291,6 +291,8 @@ func runC08(c *gen.Ctx) error {
 		}
 		c.DoParallel("dispatch", ins, 3)
 	}
+	// (ii.c) the marks at work in testResults: any sequence of API calls, report()'s FAILED / INFO lines
+	c08MarkedGen(c)
 	// (iii) the real CLI, black box
 	if c.BinDir != "" {
 		if err := c08CLI(c); err != nil {
